@@ -580,7 +580,7 @@ fn conc_part(rep: &mut Report, viol: &mut Viol, thorough: bool) {
                 viol.add(
                     rep,
                     &format!("built-in {} {} when another thread uses the same list: `{}`", c.builtin, kills(&how), c.class),
-                    &format!("{verb} {} under-contention", c.builtin),
+                    &format!("{verb} {} {}", c.builtin, if c.json["pair"].as_bool().unwrap_or(false) { "opposite-argument-order" } else { "under-contention" }),
                     input,
                 );
             }
